@@ -45,6 +45,7 @@ type CheckCfg struct {
 	Sinks     []string          `json:"sinks"`
 	InitPkgs  []string          `json:"init_pkgs"`
 	Redirects map[string]string `json:"redirects"`
+	SymbolicOnlyRedirects []string `json:"symbolic_only_redirects"` // redirects NOT applied in native replay (the harness handles the real function natively)
 	ZeroStubs []string          `json:"zero_stubs"` // functions replaced by "return zero values" (listed in the evidence)
 	Assumptions []string        `json:"assumptions"`
 	Bounds    map[string]string `json:"bounds"`
@@ -93,6 +94,7 @@ type Engine struct {
 	overlay    map[string][]byte
 	overlayFiles map[string]string // virtual -> real (for go test -overlay)
 	loadSecs   float64
+	nativeRedir *nativeRedirects
 }
 
 var defaultSinks = []string{
@@ -314,6 +316,10 @@ func (e *Engine) load() error {
 		}
 		e.redirects[from] = f
 	}
+	e.nativeRedir = e.buildNativeRedirects(work)
+	for _, p := range e.nativeRedir.problems {
+		fmt.Fprintln(os.Stderr, "native redirect:", p)
+	}
 	e.loadSecs = time.Since(t0).Seconds()
 	return nil
 }
@@ -482,7 +488,7 @@ func (e *Engine) explore(ent *EntryCfg, deadline time.Time) *EntryResult {
 				switch pr.Status {
 				case "ok":
 					res.OkPaths++
-					if pr.Sample != nil && len(res.Samples) < 6 {
+					if pr.Sample != nil && len(res.Samples) < 12 {
 						res.Samples = append(res.Samples, pr.Sample)
 					}
 				case "infeasible":
@@ -531,8 +537,17 @@ func (e *Engine) runPath(fn *ssa.Function, ent *EntryCfg, prefix []int, solver *
 	<-c.finished
 	c.killAll()
 	// path-level sample (a satisfying assignment of the path condition)
-	if c.res.Status == "ok" && len(c.vars) > 0 && len(prefix)%7 == 0 {
-		if m, ok := c.model(); ok {
+	if c.res.Status == "ok" && len(prefix)%3 == 0 {
+		m, ok := c.model()
+		if !ok && len(c.vars) == 0 {
+			m, ok = map[string]interface{}{}, true
+		}
+		if ok {
+			if cv, ok2 := c.side["choicevals"].(map[string]int); ok2 {
+				for k, x := range cv {
+					m[k] = x
+				}
+			}
 			c.res.Sample = m
 		}
 	}
